@@ -107,12 +107,17 @@ FullFails(e) ==
                THEN {<<"C10", "repetition-not-draw", D(<<d, e.infos[LastOfDepth(e.infos, d)].raw>>)>>} ELSE {} : d \in 1..e.D}
    ELSE {})
   \cup
-  \* C11: mate in one is played once iteration 1 has finished; an avoidable mate in one is avoided after iteration 2
-  (IF ~hasHistory /\ Completed(e.infos, 1) /\ l1 # 0 /\ l1 <= Len(e.sends) /\ mating # {} /\ DescOf(e.sends[l1].s) \notin mating
-   THEN {<<"C11", "mate-in-one-missed", D(e.infos[l1].raw)>>} ELSE {})
-  \cup
-  (IF e.tag = "mate" /\ ~hasHistory /\ Completed(e.infos, 2) /\ l2 # 0 /\ l2 <= Len(e.sends) /\ mating = {} /\ safe # {} /\ DescOf(e.sends[l2].s) \notin safe
-   THEN {<<"C11", "walks-into-mate", D(e.infos[l2].raw)>>} ELSE {})
+  \* C11: mate in one is played once iteration 1 has finished; an avoidable mate in one is avoided after iteration 2.
+  \* With a game history a move into a position that already occurred twice is a draw, not a mate / not a blunder:
+  \* such moves are taken out of the mating set and added to the safe set (root_rep gives the count per root move).
+  (LET drawn == {m \in legal : \E j \in 1..Len(e.root_rep) : e.root_rep[j][1] = MoveText(m) /\ e.root_rep[j][2] >= 2}
+       mate1 == mating \ drawn
+   IN (IF Completed(e.infos, 1) /\ l1 # 0 /\ l1 <= Len(e.sends) /\ mate1 # {} /\ DescOf(e.sends[l1].s) \notin mate1
+       THEN {<<"C11", "mate-in-one-missed", D(e.infos[l1].raw)>>} ELSE {})
+      \cup
+      (IF e.tag = "mate" /\ Completed(e.infos, 2) /\ l2 # 0 /\ l2 <= Len(e.sends) /\ mate1 = {} /\ safe # {}
+          /\ DescOf(e.sends[l2].s) \notin (safe \cup drawn)
+       THEN {<<"C11", "walks-into-mate", D(e.infos[l2].raw)>>} ELSE {}))
   \cup MateClaimFails(root, e.infos, hasHistory)
   \cup
   \* C11: a stalemate is never scored as a mate: if the root's best line is claimed "mate 1" the move must mate
